@@ -497,6 +497,19 @@ impl RibUnitRunner {
         self.http_processor.clone()
     }
 
+    /// Verification hook: install (or remove) the `rib-in-pre` filter, as
+    /// `new` does from the compiled script of the component.
+    #[cfg(feature = "verif-hooks")]
+    pub fn verif_set_roto_pre(&mut self, f: Option<RotoFuncPre>) {
+        self.roto_function_pre = f;
+    }
+
+    /// Verification hook: the gate this runner sends its updates to.
+    #[cfg(feature = "verif-hooks")]
+    pub fn verif_gate(&self) -> Arc<Gate> {
+        self.gate.clone()
+    }
+
     fn http_api_path_for_rib_type(
         http_api_path: &str,
         rib_type: RibType,
